@@ -292,6 +292,30 @@ def d5_ets(facts, rep):
         short = fn.p.split('::')[-1]
         rep.ob('D5', 'K11', fn, 'plain stores to my_root / my_count occur only in the non-concurrent table functions', short in allowed,
                '%s stores my_root/my_count plainly on a concurrent path' % fn.p, key_extra=fn.p)
+    # the element of a thread is created (create_local: appended to my_locals and initialised) BEFORE a slot is claimed for it.  Until
+    # the claim nothing may fail: if the allocation of a bigger hash array throws in between, the exception leaves local() with the
+    # element already in the container but in no slot - the thread's next access creates a second element (two initialiser
+    # calls, size() counts the thread twice).
+    for fn in facts.get(E + 'table_lookup'):
+        cl = calls_named(fn, ('create_local',))
+        if not cl:
+            continue
+        claims = calls_named(fn, ('claim',))
+        cpos = set(c[0] for c in claims)
+        reached, ex, par = fn.walk(cl[0][0], stop_elem=lambda p_, e_: p_ in cpos)
+        bad = []
+        for q in reached:
+            e_ = fn.elems(q[0])[q[1]]
+            if q == cl[0][0] or not isinstance(e_, int) or fn.nodes[e_].get('k') not in ('call', 'new'):
+                continue
+            d_ = fn.callee(e_) or {}
+            if fn.nodes[e_].get('k') == 'new' and not fn.nodes[e_].get('pl'):
+                bad.append('new at line %s' % fn.nodes[e_].get('ln'))
+            if d_.get('n') in ('allocate', 'create_array'):
+                bad.append('%s at line %s' % (d_.get('n'), fn.nodes[e_].get('ln')))
+        rep.ob('D5', 'K9', fn, 'nothing can fail between the creation of a thread\'s element and the claim of its slot (table_lookup)', not bad,
+               'an allocation that may throw (%s) stands between create_local() and the slot claim: on bad_alloc the new element stays in '
+               'the container without a key and the thread\'s next access creates another one' % ', '.join(sorted(set(bad))), key_extra='create-then-claim')
     # the per-instance-key specialisation caches each thread's element pointer in a native TLS slot.  set_tls() reaches the calling
     # thread only; the one way to drop EVERY thread's cached pointer is to destroy the key.  So whenever the hashed table is
     # emptied (table_clear: clear(), assignment) the key is destroyed and created afresh - otherwise another thread's next
@@ -315,4 +339,4 @@ def d5_ets(facts, rep):
                'local() returns it as an existing element', key_extra='tls-cache')
     if ncache < 1:
         raise AnalysisBroken('ets_base<ets_key_per_instance>::table_clear not instantiated')
-    rep.floor('D5', 8, 'ETS table')
+    rep.floor('D5', 9, 'ETS table')
